@@ -1,6 +1,10 @@
 """C04: xsl:comment content repair (XSLT 1.0 7.4 / XML 2.5): the string handed to the serializer as comment content contains no "--" and
-does not end in "-"; nothing but single spaces is inserted.  BOUNDED stand-in (class B): the real in-place repair loop of
-ElemComment::endElement is run on every string of at most 7 units over the alphabet { '-', 'x', ' ' } against a concrete string model."""
+does not end in "-"; nothing but single spaces is inserted.
+Job comment_wf (class P): loop contract on the real in-place repair loop of ElemComment::endElement, strings of any length up to 1024 units over the
+full 16-bit alphabet, XalanDOMString::insert(iterator, char) as a contract (ghost-witness instantiation of "units before the position stay, the
+unit at the position moves up by one"); the postcondition is the precondition of the comment() stub.
+Job comment (class B, kept for the "every original unit is kept, in order" clause, which the witness form cannot state): the same loop run on
+every string of at most 7 units over the alphabet { '-', 'x', ' ' } against a concrete string model."""
 from xvlib.unit import Fn, Job, Unit, Mutant
 from xvlib.common import UNICODE_BLOCK
 
@@ -8,6 +12,48 @@ EC = 'src/xalanc/XSLT/ElemComment.cpp'
 TEMPLATE = r'''
 #include "xv_shim.h"
 @@BLOCK XalanUnicode@@
+#ifdef XV_PROOF
+#define MAXN 1024
+#define CAP (2 * MAXN + 2)
+typedef struct Self Self; typedef struct Ctx StylesheetExecutionContext; typedef struct XS XStr;
+typedef XalanDOMChar* XalanDOMString_iterator;
+XalanDOMChar g_buf[CAP]; size_t g_len; size_t g_n; size_t g_w; bool g_commented; XStr* g_str_p;
+#define IDX(p) ((size_t)(__CPROVER_POINTER_OFFSET(p) / sizeof(XalanDOMChar)))
+#define INBUF(p) (__CPROVER_same_object(p, &g_buf[0]) && __CPROVER_POINTER_OFFSET(p) % sizeof(XalanDOMChar) == 0 && IDX(p) < CAP)
+#define NO_DD_AT(k) (!(g_buf[k] == 0x2D && g_buf[(k) + 1] == 0x2D))
+static XalanDOMChar* xv_begin(XStr* s) { return &g_buf[0]; }
+static XalanDOMChar* xv_end(XStr* s) { return &g_buf[g_len]; }
+/* XalanDOMString::insert(iterator, char) (proved against the vector model in c20_string): the units before the position stay, the new unit is at
+   the position, the unit that was there follows it; returns an iterator to the inserted unit.  The universal facts are instantiated at the
+   ghost index g_w and at the two units before the position. */
+XalanDOMChar* xv_insert(XStr* s, XalanDOMChar* pos, XalanDOMChar c)
+__CPROVER_requires(INBUF(pos) && IDX(pos) <= g_len && g_len + 1 < CAP)
+__CPROVER_requires(/* nothing but a space is inserted, and only right after a hyphen */ c == 0x20 && IDX(pos) > 0 && g_buf[IDX(pos) - 1] == 0x2D)
+__CPROVER_assigns(g_len, __CPROVER_object_whole(g_buf))
+__CPROVER_ensures(__CPROVER_pointer_in_range_dfcc(&g_buf[0], __CPROVER_return_value, &g_buf[CAP - 1]))
+__CPROVER_ensures(__CPROVER_return_value == __CPROVER_old(pos) && g_len == __CPROVER_old(g_len) + 1)
+__CPROVER_ensures(g_buf[IDX(__CPROVER_return_value)] == 0x20)
+__CPROVER_ensures(g_buf[IDX(__CPROVER_return_value) - 1] == 0x2D)
+__CPROVER_ensures(IDX(__CPROVER_return_value) >= 2 ==> g_buf[IDX(__CPROVER_return_value) - 2] == __CPROVER_old(g_buf[IDX(pos) >= 2 ? IDX(pos) - 2 : 0]))
+__CPROVER_ensures(g_w < IDX(__CPROVER_return_value) ==> g_buf[g_w] == __CPROVER_old(g_buf[g_w < CAP ? g_w : 0]))
+__CPROVER_ensures(g_w + 1 < IDX(__CPROVER_return_value) ==> g_buf[g_w + 1] == __CPROVER_old(g_buf[g_w + 1 < CAP ? g_w + 1 : 0]))
+__CPROVER_ensures(g_buf[IDX(__CPROVER_return_value) + 1] == __CPROVER_old(g_buf[IDX(pos) < CAP ? IDX(pos) : 0])) ;
+/* XML 2.5: Comment ::= '<!--' ((Char - '-') | ('-' (Char - '-')))* '-->' : what reaches the serializer has no "--" (at the arbitrary index g_w)
+   and does not end in "-" */
+void xv_comment(StylesheetExecutionContext* e, XStr* s)
+__CPROVER_requires(/* comment content: no "--" reaches the serializer */ g_w + 1 < g_len ==> NO_DD_AT(g_w))
+__CPROVER_requires(/* comment content: no trailing "-" reaches the serializer */ g_len > 0 ==> g_buf[g_len - 1] != 0x2D)
+__CPROVER_requires(/* at most one space per original unit was added */ g_len <= 2 * g_n)
+__CPROVER_assigns(g_commented) __CPROVER_ensures(g_commented == true) ;
+@@FN endElement_wf@@
+void h_comment_wf(void)
+{
+    size_t n, w; XalanDOMChar fill[CAP];
+    __CPROVER_array_copy(g_buf, fill);
+    g_n = n; g_len = n; g_w = w; g_commented = false;
+    endElement_wf(0, 0);
+}
+#else
 #define MAXN 7
 typedef struct Self Self; typedef struct Ctx StylesheetExecutionContext;
 typedef struct { XalanDOMChar buf[2 * MAXN + 2]; size_t len; } XStr;     /* a concrete string with room for one inserted space per unit */
@@ -49,6 +95,7 @@ void h_comment(void)
     __CPROVER_assert(g_commented, "the comment is written");
     XV_REACH("h_comment");
 }
+#endif
 '''
 R = [(r'endChildrenToString\(executionContext\);', '', 1),
      (r'XalanDOMString&\s+theResult = executionContext\.getAndPopCachedString\(\);', 'XStr* const theResult_p = &g_str;', 1),
@@ -59,14 +106,27 @@ R = [(r'endChildrenToString\(executionContext\);', '', 1),
      (r'executionContext\.comment\(theResult\.c_str\(\)\);', 'xv_comment(executionContext, theResult_p);', 1),
      (r'executionContext\.popCopyTextNodesOnly\(\);', '', 1),
      'SCOPE']
+RP = [(r'XalanDOMString&\s+theResult = executionContext\.getAndPopCachedString\(\);', 'XStr* const theResult_p = g_str_p;', 1) if i == 1 else r for i, r in enumerate(R)]
+INV = '''__CPROVER_assigns(theCurrent, theEnd, g_len, __CPROVER_object_whole(g_buf))
+__CPROVER_loop_invariant(INBUF(theCurrent) && INBUF(theEnd) && IDX(theEnd) == g_len && IDX(theCurrent) <= g_len && g_len < CAP)
+__CPROVER_loop_invariant(/* one space at most per unit already passed: room is left */ 2 * g_len <= 2 * g_n + IDX(theCurrent))
+__CPROVER_loop_invariant(/* the part already passed has no "--" (at the arbitrary index g_w) */ g_w + 1 < IDX(theCurrent) ==> NO_DD_AT(g_w))
+__CPROVER_loop_invariant(/* a hyphen just passed is followed by a unit that is not a hyphen */ (IDX(theCurrent) > 0 && g_buf[IDX(theCurrent) - 1] == 0x2D) ==> (IDX(theCurrent) < g_len && g_buf[IDX(theCurrent)] != 0x2D))
+__CPROVER_decreases(g_len - IDX(theCurrent))'''
 UNIT = Unit(
     name='c04_comment',
     props=['C04'],
     blocks=[UNICODE_BLOCK],
     functions=[Fn(EC, r'^ElemComment::endElement\(StylesheetExecutionContext&\s+executionContext\) const', 'endElement', 'void endElement(const Self* self, StylesheetExecutionContext* executionContext)',
-                  rules=R, nloops=1, reach=False)],
+                  rules=R, nloops=1, reach=False),
+               Fn(EC, r'^ElemComment::endElement\(StylesheetExecutionContext&\s+executionContext\) const', 'endElement_wf', 'void endElement_wf(const Self* self, StylesheetExecutionContext* executionContext)',
+                  rules=RP, nloops=1, reach=True, loops={0: INV},
+                  contract='''__CPROVER_requires(g_n <= MAXN && g_len == g_n && g_commented == false && g_w < CAP - 1)
+__CPROVER_assigns(g_len, g_commented, __CPROVER_object_whole(g_buf))
+__CPROVER_ensures(g_commented == true)''')],
     template=TEMPLATE,
-    jobs=[Job('comment', 'h_comment', dfcc=False, cls='B', unwind=17, reach=['h_comment'], timeout=900, min_obligations=3,
+    jobs=[Job('comment_wf', 'h_comment_wf', enforce=['endElement_wf'], replace=['xv_insert', 'xv_comment'], loop_contracts=True, defines=['XV_PROOF'], reach='all', timeout=900, min_obligations=6),
+          Job('comment', 'h_comment', dfcc=False, cls='B', unwind=17, reach=['h_comment'], timeout=900, min_obligations=3,
               bound_note='all strings of at most 7 units over { hyphen, x, space } (3280 strings); the repair loop, the insert shift loop and the checking loops are fully unwound')],
     mutants=[
         Mutant('trailing_hyphen_kept', EC, r'if \(theNext == theEnd \|\|\s*\*theNext == XalanUnicode::charHyphenMinus\)', 'if (theNext != theEnd &&\n                *theNext == XalanUnicode::charHyphenMinus)', expect='no trailing'),
